@@ -90,7 +90,7 @@ def parseCase (lines : Array String) : Parsed := Id.run do
     | "opts" :: ws =>
       p := { p with cfg := applyOptions p.cfg (ws.filterMap parseOpt) }
     | ["maxdepth", n] => p := { p with cfg := { p.cfg with maxDepth := nat! n } }
-    | "faults" :: ws => p := { p with faults := ws.map bool! }
+    | "faults" :: ws => p := { p with faults := ws.map (fun w => w != "0") }
     | "body" :: idx :: "=" :: ws =>
       let acts := (splitOnSemi ws).filterMap parseAction
       let i := nat! idx
